@@ -39,6 +39,25 @@ class Obs:
         return {'rc': self.rc, 'out': self.out[-300:], 'err': self.err[-600:], 'exc': self.exc, 'hang': self.hang}
 
 
+OWN_STDIN_TEXT = 'THE STDIN OF THE EXACTLY PROCESS ITSELF\n'
+
+
+def _own_stdin():
+    """Before every run, the standard input of the exactly process (descriptor 0 and sys.stdin) is a file holding a known text, positioned at
+    its start.  A process that exactly starts must get the stdin the test case denotes (nothing, if none is denoted) - never this text."""
+    import os
+    import sys
+    p = str(_world.get().root / 'own-stdin.txt')
+    with open(p, 'w') as f:
+        f.write(OWN_STDIN_TEXT)
+    fd = os.open(p, os.O_RDONLY)
+    try:
+        os.dup2(fd, 0)
+    finally:
+        os.close(fd)
+    sys.stdin = open(0, 'r', closefd=False)
+
+
 def run(argv, mp=None, real_files=False) -> Obs:
     """mp.execute(argv, StdOutputFiles(out, err)).  An exception escaping execute is
     an observation (`exc`), as is a VirtualHang (`hang`)."""
@@ -50,6 +69,7 @@ def run(argv, mp=None, real_files=False) -> Obs:
     else:
         o, e = io.StringIO(), io.StringIO()
     rc, exc, hang = None, None, False
+    _own_stdin()
     try:
         rc = mp.execute(list(argv), StdOutputFiles(o, e))
     except VirtualHang as ex:
